@@ -43,6 +43,19 @@ def run(repo, chk):
     rule_preen(repo, chk)
     rule_e(chk, base)
     rule_g(repo, chk)
+    rule_order(repo, chk)
+    rule_stale(repo, chk)
+    rule_roles(chk, base)
+
+
+def rule_roles(chk, base):
+    """The channel readiness events go to is the channel of the component that registered the descriptor *for that role*."""
+    ar, aw = base.methods['addReader'], base.methods['addWriter']
+    def tgt(f):
+        return {src(n.targets[0].value) for n in walk_no_defs(f.node) if isinstance(n, ast.Assign) and isinstance(n.targets[0], ast.Subscript) and 'target' in src(n.targets[0].value)}
+    shared = tgt(ar) & tgt(aw)
+    chk.ob('e', base.ref if hasattr(base, 'ref') else POLLERS, 'the reader and the writer of a descriptor each keep their own target channel (registering a writer must not redirect the reader\'s events)',
+           not shared, loc(ar, ar.node), detail=f'one map for both roles: {sorted(shared)}', discr='target-per-role')
 
 
 def rule_a(chk, c):
@@ -140,8 +153,26 @@ def rule_b(chk, c, cname):
                path=pat.path_lines(path) if path else None, discr=label)
     # the old kernel registration is dropped first (re-registering an fd raises otherwise)
     unr = [n for n in g.nodes if n.kind == 'stmt' and any(r == 'self._poller' for r, _c in pat.method_calls(n.ast, 'unregister'))]
-    chk.ob('b', f.ref, 'the previous kernel registration is dropped before the new mask is applied', bool(unr) and all(
-        Q.reachable_without(g, r_, avoid_node=lambda n: n in unr) is None for r_ in reg), loc(f, f.node), discr='unregister-first')
+    # … possibly in a loop over the numbers the object is known under: a loop over a non-empty display (`{fileno, *known}`) runs at least once
+    loops_ok = []
+    for lp in g.nodes:
+        if lp.kind == 'for' and isinstance(lp.ast.iter, (ast.Set, ast.Tuple, ast.List)) and any(not isinstance(x, ast.Starred) for x in lp.ast.iter.elts):
+            body = [e.dst for e in lp.succ if e.kind == 'T']
+            if body and all(b_ in unr or Q.escapes(g, [b_], lambda n: n in unr, exits=('exit',), extra_exit=lambda n: n is lp) is None for b_ in body):
+                loops_ok.append(lp)
+    def dropped_before(r_):
+        if Q.reachable_without(g, r_, avoid_node=lambda n: n in unr) is None:
+            return True
+        return bool(loops_ok) and Q.reachable_without(g, r_, avoid_node=lambda n: n in loops_ok) is None
+    chk.ob('b', f.ref, 'the previous kernel registration is dropped before the new mask is applied', bool(unr) and all(dropped_before(r_) for r_ in reg), loc(f, f.node),
+           discr='unregister-first')
+    # a closed object no longer reports its number: on the no-interest branch its map entries are found by value (sibling rule: Poll and EPoll agree)
+    byval = [n for n in walk_no_defs(f.node) if isinstance(n, (ast.ListComp, ast.SetComp, ast.GeneratorExp)) and 'self._map.items()' in src(n) and
+             any(isinstance(c_, ast.Compare) and fd in (src(c_.left), src(c_.comparators[0])) for i_ in n.generators[0].ifs for c_ in ast.walk(i_))]
+    dels = [n for n in g.nodes if n.kind == 'stmt' and isinstance(n.ast, ast.Delete) and any(src(t).startswith('self._map[') for t in n.ast.targets) and any(k == 'loop' for k, _a in n.ctx)]
+    okv = bool(byval) and bool(dels) and any(pat.guarded_by(g, n, mask_F) is None for n in dels)
+    chk.ob('b', f.ref, 'when no interest is left the map entries of the object are found by value (a closed object answers fileno() with -1 / an error)', okv, loc(f, f.node),
+           discr='unmap-by-value')
 
 
 def rule_c_d(chk, c, cname):
@@ -203,15 +234,24 @@ def rule_c_d(chk, c, cname):
                 chk.ob('c', f.ref, f'on hang-up: {label.replace("-", " ")} on every path', bool(grp) and p is None, loc(f, dn.ast),
                        path=pat.path_lines(p, dn) if p else None, discr=f'hangup:{label}')
     # a descriptor with data still pending is not given up: the hang-up path is taken only without the readable bit
+    stale_T = pat.test_edge(lambda tt, pol: pol == 'T' and isinstance(tt, ast.Name) and any(
+        f'{fd}.fileno() != {fileno}' in src(v) or (isinstance(v, ast.Constant) and v.value is True) for v in pat.local_feeds(f, tt.id)) and
+        any(f'{fd}.fileno()' in src(v) for v in pat.local_feeds(f, tt.id)))
     for dn in dis_main:
-        q = pat.guarded_by(g, dn, pat.test_edge(lambda tt, pol: pol == 'F' and isinstance(tt, ast.BinOp) and isinstance(tt.op, ast.BitAnd) and
-                                                src(tt.left) == ev and src(tt.right) in IN_ALIASES))
+        q = pat.guarded_by(g, dn, lambda e: stale_T(e) or pat.test_edge(lambda tt, pol: pol == 'F' and isinstance(tt, ast.BinOp) and isinstance(tt.op, ast.BitAnd) and
+                                                                         src(tt.left) == ev and src(tt.right) in IN_ALIASES)(e))
         chk.ob('c', f.ref, 'the descriptor is given up on hang-up only when the kernel reports nothing left to read (readable data is delivered '
                            'first, the hang-up is seen again afterwards)', q is None, loc(f, dn.ast), path=pat.path_lines(q) if q else None,
                discr='hangup-only-when-drained')
     # error clause releases too
     for h in pat.except_nodes(g):
         reg = pat.region(g, 'except', h.ast)
+        # only the clauses that guard the reporting itself (a probe of the descriptor, e.g. `fd.fileno()`, has its own handler)
+        tr = [a for k, a in h.ctx if k == 'try']
+        body_fires = any(pat.fire_calls(x) for t_ in ([getattr(h.ast, '_parent', None)] if isinstance(getattr(h.ast, '_parent', None), ast.Try) else tr) if t_ is not None
+                         for b_ in t_.body for x in [b_])
+        if not body_fires:
+            continue
         for label, pred in (('disconnect-fired', lambda n: n.kind == 'stmt' and pat.fires(n.ast, '_disconnect')),
                             ('kernel-unregistered', lambda n: n.kind == 'stmt' and any(r == 'self._poller' for r, _c in pat.method_calls(n.ast, 'unregister'))),
                             ('bookkeeping-discarded', lambda n: n.kind == 'stmt' and any(r == 'super()' for r, _c in pat.method_calls(n.ast, 'discard'))),
@@ -231,6 +271,43 @@ def rule_c_d(chk, c, cname):
                 if r == 'self' and [src(a) for a in c2.args] == tv and not any(isinstance(x, ast.If) for x in n.body):
                     ok = True
     chk.ob('d', ge.ref, 'every (descriptor, readiness) pair reported by the kernel is processed', ok, loc(ge, ge.node), discr='all-processed')
+
+
+def rule_order(repo, chk):
+    """Sibling rule: within one round every poller reports a descriptor's input before its output (a write handler may close the socket: the data that has
+    arrived must have been handed over by then)."""
+    chk.rule('C10.h', 'the three pollers agree on the order of one round: _read events are fired before _write events')
+    for cname, meth in (('Select', '_generate_events'), ('Poll', '_process'), ('EPoll', '_process')):
+        f = repo.func(POLLERS, f'{cname}.{meth}')
+        chk.touch(f)
+        g = f.cfg()
+        rd = [n for n in g.nodes if n.kind == 'stmt' and any(pat.event_ctor_name(e) == '_read' for _c, _r, e in pat.fire_calls(n.ast))]
+        wr = [n for n in g.nodes if n.kind == 'stmt' and any(pat.event_ctor_name(e) == '_write' for _c, _r, e in pat.fire_calls(n.ast))]
+        need(rd and wr, f'C10.h: {cname}.{meth} does not fire _read and _write')
+        ok = all(not Q.reaches(w_, r_) for w_ in wr for r_ in rd) and any(Q.reaches(r_, w_) for r_ in rd for w_ in wr)
+        chk.ob('h', f.ref, 'input is reported before output: no _write fire can be followed by a _read fire in the same round', ok, loc(f, wr[0].ast), discr=f'read-before-write:{cname}')
+
+
+def rule_stale(repo, chk):
+    """select.poll keeps a number registered until it is unregistered; a closed object that was never discarded leaves its number behind, and the number may be
+    handed to a new descriptor: Poll must not report that descriptor's readiness for the dead object."""
+    f = repo.func(POLLERS, 'Poll._process')
+    g = f.cfg()
+    fileno = f.params[1]
+    look = [n for n in g.nodes if n.kind == 'stmt' and isinstance(n.ast, ast.Assign) and src(n.ast.value) == f'self._map[{fileno}]']
+    need(look, 'C10.c: Poll._process does not resolve the descriptor through the map')
+    fd = src(look[0].ast.targets[0])
+    flags = {n.ast.targets[0].id for n in g.nodes if n.kind == 'stmt' and isinstance(n.ast, ast.Assign) and isinstance(n.ast.targets[0], ast.Name)
+             and f'{fd}.fileno()' in src(n.ast.value) and fileno in Q.names_used(n.ast.value)}
+    fresh = pat.test_edge(lambda tt, pol: (pol == 'F' and isinstance(tt, ast.Name) and tt.id in flags) or
+                          pat.fact_matches(pat.compare_fact(tt, pol), f'{fd}.fileno()', ('==',), fileno) or
+                          (pol == 'T' and isinstance(tt, ast.Call) and call_name(tt) == 'isinstance' and src(tt.args[0]) == fd and src(tt.args[1]) == 'int'))
+    for name in ('_read', '_write'):
+        for n in g.nodes:
+            if n.kind == 'stmt' and any(pat.event_ctor_name(e) == name for _c, _r, e in pat.fire_calls(n.ast)):
+                q = pat.guarded_by(g, n, fresh)
+                chk.ob('c', f.ref, f'{name} is reported only for an object that still owns the number the kernel reported (a closed object whose number was reused is dropped, '
+                                   'not credited with the new descriptor\'s readiness)', q is None, loc(f, n.ast), path=pat.path_lines(q) if q else None, discr=f'not-stale:{name}')
 
 
 def rule_select(repo, chk):
@@ -316,10 +393,16 @@ def rule_e(chk, base):
         fd = f.params[2]
         app = [n for n in g.nodes if n.kind == 'stmt' and any(r == lst and [src(a) for a in c.args] == [fd] for r, c in pat.method_calls(n.ast, 'append'))]
         tg = [n for n in g.nodes if n.kind == 'stmt' and isinstance(n.ast, ast.Assign) and src(n.ast.targets[0]) == f'self._targets[{fd}]']
-        p1 = Q.escapes(g, [g.entry], lambda n: n in app)
+        present = pat.test_edge(lambda tt, pol: pat.fact_matches(pat.compare_fact(tt, pol), fd, ('in',), lst))
+        p1 = Q.escapes(g, [g.entry], lambda n: n in app, avoid_edge=present)      # (already listed: nothing to add)
         p2 = Q.escapes(g, [g.entry], lambda n: n in tg)
-        chk.ob('e', f.ref, 'the descriptor is added to the interest list and its target channel recorded, on every path', bool(app) and bool(tg)
+        chk.ob('e', f.ref, 'the descriptor is added to the interest list (unless it is listed already) and its target channel recorded, on every path', bool(app) and bool(tg)
                and p1 is None and p2 is None, loc(f, f.node), discr='add')
+        # the interest lists are sets in effect: remove*/discard take out one occurrence, so an add must never produce a second one
+        absent = pat.test_edge(lambda tt, pol: pat.fact_matches(pat.compare_fact(tt, pol), fd, ('not in',), lst))
+        oki = bool(app) and all(pat.guarded_by(g, n, absent) is None for n in app)
+        chk.ob('e', f.ref, 'adding a descriptor that is registered for the role already does not list it a second time (one discard must unregister it)', oki,
+               loc(f, (app or [g.entry])[0].ast) if app else loc(f, f.node), discr='add-idempotent')
         def from_source(n):
             v = n.ast.value
             if "getattr(" + f.params[1] in src(v):
